@@ -28,33 +28,6 @@ Proof.
   induction l as [|x r IH]; cbn [flat_map]; [reflexivity|]. rewrite flat_map_app, IH. reflexivity.
 Qed.
 
-Lemma zrange_app a : forall lo b, zrange lo (a + b) = zrange lo a ++ zrange (lo + Z.of_nat a) b.
-Proof.
-  induction a as [|a IH]; intros lo b.
-  - cbn [plus zrange app]. replace (lo + Z.of_nat 0) with lo by lia. reflexivity.
-  - cbn [plus zrange app]. rewrite IH. replace (lo + 1 + Z.of_nat a) with (lo + Z.of_nat (S a)) by lia.
-    reflexivity.
-Qed.
-
-Lemma zrange_in n : forall lo k, In k (zrange lo n) <-> lo <= k < lo + Z.of_nat n.
-Proof.
-  induction n as [|n IH]; intros lo k; cbn [zrange In].
-  - split; [tauto|lia].
-  - rewrite IH. lia.
-Qed.
-
-Lemma zrange_map_seq n : forall lo s, zrange (lo + Z.of_nat s) n = map (fun i => lo + Z.of_nat i) (seq s n).
-Proof.
-  induction n as [|n IH]; intros lo s; cbn [zrange seq map]; [reflexivity|].
-  f_equal. replace (lo + Z.of_nat s + 1) with (lo + Z.of_nat (S s)) by lia. apply IH.
-Qed.
-
-Lemma zrange_nodup n : forall lo, NoDup (zrange lo n).
-Proof.
-  induction n as [|n IH]; intros lo; cbn [zrange]; constructor; [|apply IH].
-  rewrite zrange_in. lia.
-Qed.
-
 (** ** strides *)
 Fixpoint sn (l : nat) : nat := match l with O => 16 | S j => 4 * sn j end.
 Definition stride_of (l : nat) : Z := Z.of_nat (sn l).
@@ -69,7 +42,7 @@ Lemma stride_pow l : stride_of l = 2 ^ (Z.of_nat l * 2 + 4).
 Proof.
   induction l as [|l IH]; [reflexivity|]. rewrite stride_S, IH.
   replace (Z.of_nat (S l) * 2 + 4) with ((Z.of_nat l * 2 + 4) + 2) by lia.
-  rewrite Z.pow_add_r by lia. change (2 ^ 2) with 4. lia.
+  rewrite (Z.pow_add_r 2 (Z.of_nat l * 2 + 4) 2) by lia. change (2 ^ 2) with 4. apply Z.mul_comm.
 Qed.
 
 Lemma shiftr_stride l : Z.shiftr (stride_of (S l)) LOGC = stride_of l.
@@ -108,7 +81,7 @@ Section Calls.
     end.
 
   Lemma leaf_exact o es m : length es = 16%nat ->
-    leaf_loop (m * 16) es dt dt = flat_map (slot_evs 0 (Leaf o es)) (zrange (m * 16) 16).
+    leaf_loop (m * 16) es dt = flat_map (slot_evs 0 (Leaf o es)) (zrange (m * 16) 16).
   Proof.
     intros Hlen. unfold leaf_loop. change (Z.to_nat NLEAF) with 16%nat.
     replace (zrange (m * 16) 16) with (zrange (m * 16 + Z.of_nat 0) 16) by (f_equal; lia).
@@ -156,11 +129,11 @@ Section Calls.
       pose proof (child_exact l o c0 c1 c2 c3 m 1 IH Hs ltac:(lia)) as H1.
       pose proof (child_exact l o c0 c1 c2 c3 m 2 IH Hs ltac:(lia)) as H2.
       pose proof (child_exact l o c0 c1 c2 c3 m 3 IH Hs ltac:(lia)) as H3.
-      cbv zeta in H0, H1, H2, H3. cbn [child Z.eqb] in H0, H1, H2, H3.
-      change (3 =? 0) with false in H3. change (3 =? 1) with false in H3. change (3 =? 2) with false in H3.
-      change (2 =? 0) with false in H2. change (2 =? 1) with false in H2. change (2 =? 2) with true in H2.
-      change (1 =? 0) with false in H1. change (1 =? 1) with true in H1.
-      cbv iota in H0, H1, H2, H3.
+      cbv zeta in H0, H1, H2, H3.
+      change (child (Inner o c0 c1 c2 c3) 0) with c0 in H0.
+      change (child (Inner o c0 c1 c2 c3) 1) with c1 in H1.
+      change (child (Inner o c0 c1 c2 c3) 2) with c2 in H2.
+      change (child (Inner o c0 c1 c2 c3) 3) with c3 in H3.
       rewrite stride_S.
       replace (m * (4 * stride_of l)) with ((m * 4 + 0) * stride_of l) by lia.
       replace ((m * 4 + 0) * stride_of l + stride_of l) with ((m * 4 + 1) * stride_of l) by lia.
@@ -216,7 +189,7 @@ Proof.
     rewrite E0, E1, E2, E3. cbn [opt_app]. rewrite free_node_evs, app_nil_r, <- !free_evs_app.
     eexists. split; [reflexivity|]. cbn [nodes map fst]. rewrite !map_app.
     rewrite P0, P1, P2, P3. rewrite <- !app_assoc.
-    symmetry. apply Permutation_cons_app. rewrite !app_nil_r. reflexivity.
+    symmetry. rewrite !app_assoc. apply Permutation_cons_append.
 Qed.
 
 (** ** [fini] on reachable trees *)
@@ -355,11 +328,14 @@ Proof.
       eapply Permutation_in; [symmetry; exact P|]. apply in_map_iff. exists (Heap id, sz). split; [reflexivity|exact Hin].
 Qed.
 
+Definition zz_eq_dec (a b : Z * Z) : {a = b} + {a <> b}.
+Proof. decide equality; apply Z.eq_dec. Defined.
+
 Theorem fini_property dt t : reach t ->
   exists evs, fini false dt t = Some evs /\
     (forall k v, In (k, v) (calls_of evs) -> in_range k /\ dt k <> 0 /\ get t k = Some v) /\
     (forall k v, in_range k -> dt k <> 0 -> get t k = Some v -> v <> 0 ->
-                 count_occ (prod_eq_dec Z.eq_dec Z.eq_dec) (calls_of evs) (k, v) = 1%nat) /\
+                 count_occ zz_eq_dec (calls_of evs) (k, v) = 1%nat) /\
     NoDup (map fst (calls_of evs)) /\
     (forall k, In k (reads_of evs) -> in_range k) /\
     NoDup (frees_of evs) /\
